@@ -254,3 +254,68 @@ func (r *faultSource) Seek(off int64, whence int) (int64, error) {
 	r.pos = abs
 	return abs, nil
 }
+
+// ---------------------------------------------------------------------------
+// container source (C16, C08): the Parquet file is a region of a larger byte string (an archive member, a blob with an
+// envelope). Read and Seek - the io.ReadSeeker the library is given - are translated to the region; the other methods a
+// wrapper type typically inherits from an embedded *os.File or *bytes.Reader (ReadAt, Size, Len, ReadByte, WriteTo) are NOT
+// translated and address the whole container. A library that sticks to the interface it was given never notices.
+
+type containerSource struct {
+	all      []byte
+	off, end int64 // the file is all[off:end]
+	pos      int64 // relative to off
+}
+
+func newContainerSource(file []byte) *containerSource {
+	pre := 5 + len(file)%97
+	all := make([]byte, 0, pre+len(file)+11)
+	for i := 0; i < pre; i++ {
+		all = append(all, byte(0x15+i%7))
+	}
+	all = append(all, file...)
+	all = append(all, "PAR1\x00\x00\x00\x00PAR"...)
+	return &containerSource{all: all, off: int64(pre), end: int64(pre + len(file))}
+}
+
+func (c *containerSource) Read(p []byte) (int, error) {
+	if c.pos >= c.end-c.off {
+		return 0, io.EOF
+	}
+	n := copy(p, c.all[c.off+c.pos:c.end])
+	c.pos += int64(n)
+	return n, nil
+}
+
+func (c *containerSource) Seek(off int64, whence int) (int64, error) {
+	var np int64
+	switch whence {
+	case io.SeekStart:
+		np = off
+	case io.SeekCurrent:
+		np = c.pos + off
+	case io.SeekEnd:
+		np = c.end - c.off + off
+	default:
+		return 0, errors.New("containerSource: invalid whence")
+	}
+	if np < 0 {
+		return 0, errors.New("containerSource: negative position")
+	}
+	c.pos = np
+	return np, nil
+}
+
+// untranslated (container coordinates)
+func (c *containerSource) ReadAt(p []byte, off int64) (int, error) {
+	if off < 0 || off >= int64(len(c.all)) {
+		return 0, io.EOF
+	}
+	n := copy(p, c.all[off:])
+	if n < len(p) {
+		return n, io.EOF
+	}
+	return n, nil
+}
+func (c *containerSource) Size() int64 { return int64(len(c.all)) }
+func (c *containerSource) Len() int    { return len(c.all) }
